@@ -26,7 +26,18 @@ def klass(v):
         return 'number'
     if isinstance(v, str):
         return 'error' if v in ERRSET else 'text'
+    if type(v).__module__ == 'numpy':
+        import numpy as np
+        if isinstance(v, np.bool_):
+            return 'logical'
+        if isinstance(v, (np.integer, np.floating)):
+            return 'number' if np.isfinite(v) else 'other:nonfinite'
     return f'other:{type(v).__module__}.{type(v).__name__}'
+
+
+def numpy_leak(v):
+    """True for numpy scalars (numbers to Excel, but not python int/float)"""
+    return type(v).__module__ == 'numpy'
 
 
 def is_scalar(v):
